@@ -44,8 +44,11 @@ func (self ValueString) Fields() (map[string]*Value, *VmInterrupt) {
 			return NewValueString(out), nil
 		}),
 		"repeat": NewValueBuiltinFunction(func(executor Executor, cancelCtx *context.Context, span errors.Span, args ...Value) (*Value, *VmInterrupt) {
-			count := int(args[0].(ValueInt).Inner)
-			return NewValueString(strings.Repeat(self.Inner, count)), nil
+			count := args[0].(ValueInt).Inner
+			if count < 0 || (len(self.Inner) > 0 && count > int64(1<<31-1)/int64(len(self.Inner))) {
+				return nil, NewVMThrowInterrupt(span, fmt.Sprintf("Cannot repeat a string of length %d %d times", len(self.Inner), count))
+			}
+			return NewValueString(strings.Repeat(self.Inner, int(count))), nil
 		}),
 		"split": NewValueBuiltinFunction(func(executor Executor, cancelCtx *context.Context, span errors.Span, args ...Value) (*Value, *VmInterrupt) {
 			sep := args[0].(ValueString).Inner
